@@ -336,6 +336,107 @@ def settings_dicts(cls):
     return m.default_settings, getattr(m, "experimental_default_settings", {}), {}
 
 
+# ------------------------------------------------------------------ the support trichotomy UNDER keyword overrides
+# Quantifier covered: "every (debiaser, variable) pair of the 8 x 14 matrix" x "every overridable setting" TOGETHER — the
+# documented outcome (silent / 'experimental' warning / ValueError) of a pair is a function of the pair alone, whatever
+# keyword overrides accompany the call (none, one, several, ALL of the variable's own defaults, settings outside the
+# variable's defaults; with the default's own value or with another valid value), and the overrides / remaining defaults
+# are what the instance carries.
+def key_subsets(keys, rng):
+    """subsets of the variable's own default keys: all of them for <= 4 keys, else empty / singletons / full / full minus one /
+    four seeded random ones"""
+    import itertools
+
+    keys = list(keys)
+    n = len(keys)
+    if n <= 4:
+        return [tuple(c) for r in range(n + 1) for c in itertools.combinations(keys, r)]
+    out = [()] + [(k,) for k in keys] + [tuple(keys)] + [tuple(k for k in keys if k != d) for d in keys]
+    for _ in range(4):
+        out.append(tuple(k for k in keys if rng.random() < 0.5))
+    seen, uniq = set(), []
+    for s in out:
+        if s not in seen:
+            seen.add(s)
+            uniq.append(s)
+    return uniq
+
+
+def tag_value(v, is_default):
+    """replayable description of a keyword value: the variable's own default, a JSON value, or a scipy.stats distribution"""
+    import scipy.stats
+
+    if is_default:
+        return ["default"]
+    if v is None or type(v) in (bool, int, float, str, dict, list):
+        return ["json", v]
+    for n in ("logistic", "norm"):
+        if v is getattr(scipy.stats, n):
+            return ["scipy", n]
+    return ["repr", repr(v)[:80]]
+
+
+def untag_kwargs(tags, cls, defaults, inst0):
+    """inverse of tag_value for a whole kwargs description (None = not reconstructible)"""
+    import scipy.stats
+    import ibicus.variables as V
+
+    kw = {}
+    for k, t in tags.items():
+        if t[0] == "default_of":  # the default of ANOTHER variable of this class (offered to an unsupported pair)
+            o = V.str_to_variable_class.get(t[1])
+            d = next((s for oo, s in [p for x in settings_dicts(cls)[:2] for p in x.items()] if oo is o), None)
+            if d is None or k not in d:
+                return None
+            kw[k] = d[k]
+        elif t[0] == "default":
+            if k in defaults:
+                kw[k] = defaults[k]
+            elif inst0 is not None:
+                kw[k] = getattr(inst0, k)
+            else:
+                return None
+        elif t[0] == "json":
+            kw[k] = t[1]
+        elif t[0] == "scipy":
+            kw[k] = getattr(scipy.stats, t[1])
+        else:
+            return None
+    return kw
+
+
+def show_kwargs(kw):
+    def one(v):
+        if v is None or type(v) in (bool, int, float, str):
+            return v
+        if isinstance(getattr(v, "name", None), str) and type(v).__module__.startswith("scipy.stats"):
+            return f"scipy.stats.{v.name}"
+        return repr(v)[:60]
+
+    return {k: one(v) for k, v in kw.items()}
+
+
+def variable_defaults(cls, vobj, ident):
+    """(the settings dict from_variable merges for this Variable — default or experimental —, the general settings); None = unsupported"""
+    dflt, expd, general = settings_dicts(cls)
+    for o, s in list(dflt.items()) + list(expd.items()):
+        if o is vobj or ident(o) == ident(vobj):
+            return s, general
+    return None, general
+
+
+def direct_construct_error(cls, vobj, general, vs, kw):
+    """class name of the exception the plain constructor raises for the merged settings (None = it accepts them): tells an
+    override set that is invalid in itself (an invalid COMBINATION of valid values) from a wrong from_variable outcome"""
+    with warnings.catch_warnings():
+        warnings.simplefilter("ignore")
+        try:
+            cls(**{"variable": vobj.name, "reasonable_physical_range": vobj.reasonable_physical_range, **general, **(vs or {}), **kw})
+        except Exception as ex:  # noqa: BLE001
+            return type(ex).__name__
+    return None
+
+
 def all_fields_line(inst, fields, override=None):
     parts = []
     for f in fields:
@@ -412,7 +513,9 @@ def run(tier, res, force_search=False):
     logging.getLogger().setLevel(logging.ERROR)  # QDM.for_precipitation logs through the root logger
     rng = random.Random(C.seed() * 7919 + 15)
     res.rule = ("exhaustive: 8 debiasers x 14 variable names x {lower, UPPER, MiXed, Variable object} (+ QDM with a censoring_threshold keyword, "
-                "unknown names, for_precipitation); every (debiaser, attrs field): one valid override (kwarg visible; constructor- vs "
+                "unknown names, for_precipitation); every pair x subsets of the variable's own default keys (all subsets up to 4 keys, else empty / singletons / "
+                "full / full minus one / 4 seeded) +- a setting outside them, given the default's own or another valid value, x 4 spellings: outcome as "
+                "documented, overrides and remaining defaults on the instance; every (debiaser, attrs field): one valid override (kwarg visible; constructor- vs "
                 "attribute-configured apply output compared bitwise on a fixed 730/730/1096-day 1x2 data set) and one or two invalid values per validator; "
                 "seeded: has_* on random bound quadruples. Non-trivial = the cell is supported-with-warning or unsupported / the spelling differs "
                 "from the key / the override changes the apply output / the value is invalid; distinct = distinct tuples")
@@ -592,6 +695,91 @@ def run(tier, res, force_search=False):
         field_tables = {n: parse_fields(l) for n, l in zip(DEBS, fl)}
     except (C.DriverError, Exception) as ex:  # noqa: BLE001
         res.tie_broken.append(f"driver DrvConfig: {type(ex).__name__}: {str(ex)[:200]}")
+
+    # ---- (a) x (c): the support trichotomy under keyword overrides. Every pair of the matrix x subsets of the variable's own
+    # default keys (incl. ALL of them) and a setting outside them, given the default's own value or another valid value, every
+    # spelling of the variable: the outcome is the table's (an unsupported pair stays a ValueError whatever settings are
+    # supplied), the overrides are on the instance and the defaults not overridden still are.
+    n_kw_cases = n_kw_invalid = 0
+    import time as _time
+    t_kw = _time.time()
+    rng_kw = random.Random(C.seed() * 7919 + 1515)
+    for name in DEBS:
+        cls = getattr(D, name)
+        mfields = {f["name"]: f for f in field_tables.get(name, [])}
+        dflt_all, expd_all, _ = settings_dicts(cls)
+        donors = []  # (variable name, its complete default dict) of this class, distinct ones: settings to offer an unsupported pair
+        for o, s in list(dflt_all.items()) + list(expd_all.items()):
+            dn = next((k for k, oo in V.str_to_variable_class.items() if oo is o), None)
+            if dn is not None and len(donors) < 3 and all(set(s) != set(d) or any(s[k] is not d[k] and s[k] != d[k] for k in s) for _, d in donors):
+                donors.append((dn, s))
+        for key in names:
+            vobj = V.str_to_variable_class[key]
+            vid = next(k for k, o in vars(V).items() if o is vobj and isinstance(o, V.Variable))
+            want = doc.get((name, ident(vobj)), "valueError")
+            vs, general = variable_defaults(cls, vobj, ident)
+            inst0 = construct(cls, {}, key)[0] if vs is not None else None
+            avar = "pr" if var_keys.get(key) == "pr" else "tas"
+            plans = []  # (override keys, mode)
+            if vs is not None and inst0 is not None:
+                extra = [k for k in ("running_window_mode",) if k not in vs and hasattr(inst0, k)]
+                for sub in key_subsets(vs.keys(), rng_kw):
+                    for keys_ in ([sub] if sub else []) + ([sub + tuple(extra)] if extra and len(sub) in (0, len(vs)) else []):
+                        plans += [(keys_, "same"), (keys_, "alt")]
+            else:
+                plans += [(tuple(d.keys()), ("donor", kd)) for kd, (_, d) in enumerate(donors)] + [(("running_window_mode",), "alt")]
+            for keys_, mode in plans:
+                kw, tags = {}, {}
+                for k in keys_:
+                    if isinstance(mode, tuple):
+                        kw[k], tags[k] = donors[mode[1]][1][k], ["default_of", donors[mode[1]][0]]
+                        continue
+                    cur = vs[k] if vs is not None and k in vs else (getattr(inst0, k) if inst0 is not None else False)
+                    if mode == "same":
+                        kw[k], tags[k] = cur, tag_value(cur, True)
+                    elif k in mfields:
+                        x = alt_value(name, mfields[k], cur, avar)
+                        if x is not None:
+                            kw[k], tags[k] = x, tag_value(x, False)
+                if len(kw) != len(keys_) or any(t[0] == "repr" for t in tags.values()):
+                    continue  # no alternative value known for some key (or the field table is unavailable): the 'same' plan covers the key set
+                for spell, arg in (("lower", key), ("UPPER", upper(key)), ("MiXed", mixed(key)), ("object", vobj)):
+                    got, inst, other = outcome_from_variable(cls, arg, **kw)
+                    n_kw_cases += 1
+                    covers = vs is not None and set(vs) <= set(kw)
+                    case = {"debiaser": name, "variable": key, "spelling": spell, "argument": arg if isinstance(arg, str) else f"ibicus.variables.{vid}",
+                            "kwargs": tags, "kwargs_shown": show_kwargs(kw), "overrides_all_variable_defaults": bool(covers), "expected_outcome": want}
+                    res.count((name, key, "kwargs", keys_, str(mode), spell), True,
+                              sample={**case, "outcome": got} if covers and want == "experimental" and spell == "lower" and mode == "same" else None)
+                    if got != want:
+                        if got not in ("silent", "experimental") and want != "valueError" and direct_construct_error(cls, vobj, general, vs, kw) == (
+                                "ValueError" if got == "valueError" else got):
+                            n_kw_invalid += 1  # the override set is invalid in itself (the plain constructor rejects it the same way): not judged
+                            continue
+                        problems.append((f"from_variable({arg!r}, **{show_kwargs(kw)}) is '{got}' but the published table says '{want}' for this pair "
+                                         f"(keyword overrides do not change the documented support)", case, {"what": "kwargs_outcome"}))
+                        continue
+                    if spell in ("lower", "object") and mode == "same" and (covers or vs is None):
+                        flag = int(name == "QuantileDeltaMapping" and kw.get("censoring_threshold") is not None)
+                        q(f"support {name} {'obj ' + vid if spell == 'object' else 'name ' + arg} {flag}", "support", case, got)
+                    if other and mode == "same":
+                        problems.append((f"from_variable({arg!r}, **{show_kwargs(kw)}) emitted {other} warnings other than the experimental one", case,
+                                         {"what": "kwargs_spurious_warning"}))
+                    if inst is None:
+                        continue
+                    detour = name == "QuantileDeltaMapping" and avar == "pr" and kw.get("censoring_threshold") is not None
+                    for k, v in {**vs, **kw}.items():
+                        if k not in kw and detour and k == "distribution":
+                            continue  # QDM/pr: the distribution is derived from the censoring_threshold keyword (for_precipitation), guard of §4
+                        have = getattr(inst, k)
+                        if not (same_value(have, v) or (isinstance(have, float) and isinstance(v, (int, float)) and float(v) == have)):
+                            src = "keyword argument" if k in kw else "variable default"
+                            problems.append((f"from_variable({arg!r}, **{show_kwargs(kw)}).{k} = {have!r}, but the {src} is {v!r}",
+                                             {**case, "setting": k, "expected": repr(v)[:60], "on_instance": repr(have)[:60]},
+                                             {"what": "kwargs_not_visible" if k in kw else "kwargs_default_lost"}))
+    res.extra["from_variable_with_keyword_overrides"] = n_kw_cases
+    res.extra["override_sets_invalid_in_themselves"] = n_kw_invalid
+    res.extra["from_variable_with_keyword_overrides_wall_s"] = round(_time.time() - t_kw, 2)
     n_effect = 0
     for name in DEBS:
         cls = getattr(D, name)
@@ -969,6 +1157,33 @@ def replay(data):
         ra = ("raised", errA) if A is None else ("stored", repr(getattr(A, fi["setting"])), type(getattr(A, fi["setting"])).__name__)
         print("construction:", ra, "assignment:", rb)
         return 0 if ra == rb else 1
+    if what in ("kwargs_outcome", "kwargs_spurious_warning", "kwargs_not_visible", "kwargs_default_lost"):
+        import ibicus.variables as V
+
+        logging.getLogger().setLevel(logging.ERROR)
+        arg = fi["argument"]
+        vobj = V.str_to_variable_class.get(fi["variable"])
+        if arg.startswith("ibicus.variables."):
+            arg = getattr(V, arg.split(".")[-1])
+
+        def ident(v):
+            r = v.reasonable_physical_range
+            return (v.name, v.unit, tuple(r) if r is not None else None)
+
+        vs, _ = variable_defaults(cls, vobj, ident)
+        kw = untag_kwargs(fi["kwargs"], cls, vs or {}, construct(cls, {}, fi["variable"])[0] if vs is not None else None)
+        if kw is None:
+            print("keyword arguments not reconstructible:", fi["kwargs"])
+            return 1
+        got, inst, other = outcome_from_variable(cls, arg, **kw)
+        print(f"from_variable({arg!r}, **{show_kwargs(kw)}): outcome {got}, documented {fi['expected_outcome']}, other warnings {other}")
+        if got != fi["expected_outcome"] or (what == "kwargs_spurious_warning" and other):
+            return 1
+        if inst is not None and "setting" in fi:
+            have, v = getattr(inst, fi["setting"]), {**(vs or {}), **kw}.get(fi["setting"])
+            print(f"  .{fi['setting']} = {have!r}, expected {v!r}")
+            return 0 if same_value(have, v) or (isinstance(have, float) and isinstance(v, (int, float)) and float(v) == have) else 1
+        return 0
     if what == "alias_outcome":
         a, b = outcome_from_variable(cls, fi["argument"])[0], outcome_from_variable(cls, fi["canonical"])[0]
         print(f"from_variable({fi['argument']!r}): {a}; from_variable({fi['canonical']!r}): {b}")
